@@ -77,7 +77,12 @@ def render(case):
             else:
                 anns.append('(%s%s)' % (name, (' ' + arg) if arg else ''))
         text = run.block(b['name'], ident_ann=' '.join(anns), tags=tags, desc=desc)
-        if b.get('split') and len(anns) > 1:
+        if b.get('split') == 'bare' and anns:
+            # the identifier line is just "name:" and every annotation sits on a continuation line
+            one = ' * %s: %s' % (b['name'], ' '.join(anns))
+            assert one in text
+            text = text.replace(one, ' * %s:\n * %s' % (b['name'], '\n * '.join(anns)))
+        elif b.get('split') and len(anns) > 1:
             # layout dimension: the identifier annotations spread over continuation lines of the
             # identifier part, one annotation per line (same meaning as all on the identifier line)
             one = ' * %s: %s' % (b['name'], ' '.join(anns))
